@@ -162,10 +162,10 @@ func shrinkTCase(c *TCase) []any {
 // tRun is the state of one run of the shared workload.
 type tRun struct {
 	helper gen.PID
-	prop string
-	e    *simkit.Env
-	c    *TCase
-	n    gen.Node
+	prop   string
+	e      *simkit.Env
+	c      *TCase
+	n      gen.Node
 
 	target   gen.PID   // process under test (for meta: the owner process)
 	metaID   gen.Alias // meta kind
